@@ -58,6 +58,11 @@ package yqlib
 // ---------------------------------------------------------------------------------------------
 // operator_sort.go
 
+//@ func parseSortableNumber
+//@   props C15 C11
+//@   ensures @ok-iff (result1 == nil) == numOk(tag, value)
+//@   ensures @value implies(result1 == nil, result0 == numOf(tag, value))
+
 //@ func (sortableNodeArray).compare
 //@   props C15 C11
 //@   let lt = effTag(lhs.Tag, lhs.Value)
@@ -84,3 +89,40 @@ package yqlib
 //@     if a, ok := num(lhs); ok { if b, ok := num(rhs); ok {
 //@       if lhs.Tag == "!!int" && rhs.Tag == "!!int" && sgn(got) != a.Cmp(b) { t.Fatalf("compare(%s, %s) = %d but the integers compare %d", lhs.Value, rhs.Value, got, a.Cmp(b)) }
 //@     } }
+
+// ---------------------------------------------------------------------------------------------
+// encoder_sh.go, encoder_shellvariables.go
+
+//@ func (*shEncoder).shouldQuote
+//@   props C17
+//@   trusted executed
+//@   requires e != nil
+//@   ensures implies(!result, shellSafe(ir))
+
+//@ func (*shEncoder).encode
+//@   props C17 C11
+//@   requires e != nil
+//@   ensures @single-word shMode(runesOf(result)) == 0
+//@   ensures @expands-to-input shVal(runesOf(result)) == runesOf(input)
+//@   ensures @nothing-special shOk(runesOf(result))
+//@   loop 1:
+//@     invariant @mode shMode(sbContent(encoded)) == b2i(inQuoteBlock)
+//@     invariant @value shVal(sbContent(encoded)) == prefixRunes(input, rangepos())
+//@     invariant @ok shOk(sbContent(encoded))
+
+//@ func isAlphaOrUnderscore
+//@   props C17
+//@   ensures result == isAlphaUnderscore(r)
+
+//@ func isAlphaNumericOrUnderscore
+//@   props C17
+//@   ensures result == isAlnumUnderscore(r)
+
+//@ func quoteValue
+//@   props C17 C11
+//@   runes
+//@   ensures @single-word shMode(runesOf(result)) == 0
+//@   ensures @expands-to-value shVal(runesOf(result)) == runesOf(value)
+//@   ensures @nothing-special shOk(runesOf(result))
+//@   loop 1:
+//@     invariant @plain-so-far needsQuoting || (shMode(prefixRunes(value, rangepos())) == 0 && shVal(prefixRunes(value, rangepos())) == prefixRunes(value, rangepos()) && shOk(prefixRunes(value, rangepos())))
